@@ -7,11 +7,11 @@ Line-protocol driver for the C01 model.
 serve <transport> <wok> <hdrhex|-> <unpacked> <id> <qr> <opcode> <rd> <cd> <nAn> <nNs> <edns> <ka>
       <outcome…> q <nq> {<namehex> <qtype> <qclass>}
   outcome: silent | wrote <rcode> <n> | failed <ne> | wrotefailed <rcode> <n> <ne>
-  → <status> <hid|-> <k> {| id opcode rcode rd cd nq {namehex qtype qclass} nans ede}
+  → <status> <hid|-> <k> {| id opcode rcode rd cd nq {namehex qtype qclass} nans ede} d<disposals>
 accept <qr> <opcode> <nq> <nAn> <nNs>            → ignore|notimp|formerr|accept
 json <id> <nameBad> <namehex> <type> <qc> <cd> <do> <sde> <outcome…>
   type/qc: - | <n> | bad ; cd/do/sde: - | 0 | 1 | bad
-  → <status> <k> {| status rd cd nq {namehex qtype} nans}
+  → <status> <k> {| status rd cd nq {namehex qtype} nans} d<disposals>
 quic <orig:0/1> <poolhex|-> <streamhex|->        → none | <payloadhex>
 ```
 -/
@@ -80,6 +80,11 @@ def showJV (v : JSONView) : String :=
   let qs := " ".intercalate (v.questions.map fun q => s!"{q.1} {q.2}")
   s!"| {v.status} {showB v.rd} {showB v.cd} {v.questions.length} {qs} {v.answers.length}"
 
+/-- What a concurrent request writes into an object it takes from the pools. -/
+def foreignResp (k : Nat) : Resp :=
+  { id := 57005 + k, opcode := 0, rcode := 0, rd := true, cd := false,
+    questions := [{ name := "concurrent", qtype := 1, qclass := 1 }], answers := [0], ede := none }
+
 def step (s : Unit) : List String → Unit × String
   | "serve" :: t :: wok :: hdr :: unp :: id :: qr :: op :: rd :: cd :: nan :: nns :: edns :: ka :: rest =>
     match parseTransport t with
@@ -97,7 +102,12 @@ def step (s : Unit) : List String → Unit × String
           let hid := match parseHdr (hexBytes hdr) with
             | none => "-"
             | some h => s!"{h.id}:{showB h.qr}:{h.opcode}:{showB h.rd}:{showB h.cd}:{h.qd}:{h.an}:{h.ns}"
-          (s, showSees (serveWire tr (if bool! unp then some m else none) o (bool! wok)) hid)
+          let um := if bool! unp then some m else none
+          -- what the client sees with the Disposer's pools shared with concurrent requests
+          let sees := match um with
+            | none => dropped tr
+            | some m => serveMsgShared disposeKinds tr m o (bool! wok) foreignResp
+          (s, showSees sees hid ++ s!" d{disposeCount disposeKinds tr um o}")
       | _ => (s, "bad-op")
   | ["accept", qr, op, nq, nan, nns] =>
     let m : Msg := { id := 0, qr := bool! qr, opcode := nat! op, rd := false, cd := false,
@@ -114,7 +124,8 @@ def step (s : Unit) : List String → Unit × String
     | none => (s, "bad-op")
     | some (o, _) =>
       let r := serveJSON j (nat! id) o
-      (s, s!"{r.1} {r.2.length} " ++ " ".intercalate (r.2.map showJV))
+      (s, s!"{r.1} {r.2.length} " ++ " ".intercalate (r.2.map showJV)
+          ++ s!" d{disposeCount disposeKinds .dohJSON (jsonToMsg j (nat! id)) o}")
   | ["quic", orig, pool, stream] =>
     let f := if bool! orig then quicPayloadOrig else quicPayload
     (s, match f (hexBytes pool) (hexBytes stream) with | none => "none" | some p => toHex p)
